@@ -138,8 +138,9 @@ def r1_sites(chk, repo, d):
                     repo.enclosing_function(call)) and not assigned_values(
                         repo.enclosing_function(call), t.id):
                 choices.append(None)   # a forwarder: checked at its callers
-            elif txt in ("opcode",):
-                dom = local_opcode_domain(repo, call, "opcode")
+            elif isinstance(t, ast.Name) and t.id != "op" and \
+                    t.id not in param_names(repo.enclosing_function(call)):
+                dom = local_opcode_domain(repo, call, t.id)
                 if dom is None:
                     okshape = False
                 else:
@@ -191,17 +192,38 @@ def r1_sites(chk, repo, d):
 
 
 def local_opcode_domain(repo, call, name):
+    """the Opcode members a local holds where `call` runs, path by path
+    (sa/paths.py): `op = Opcode.STX ... op = Opcode.XADD` and a flag that
+    selects the member later are the same thing"""
+    from .. import paths
     f = repo.enclosing_function(call)
     vals = set()
-    for s, v in assigned_values(f, name):
-        if isinstance(s, ast.AugAssign):
-            return None
-        dv = dotted(v)
-        if dv and dv.startswith("Opcode."):
-            vals.add(dv.split(".")[1])
-        else:
-            return None
+
+    def on(st, p):
+        node = st.context_expr if isinstance(st, ast.withitem) else st
+        if any(c is call for c in ast.walk(node)):
+            return paths.substitute(ast.Name(id=name, ctx=ast.Load()), p.env)
+    for p in paths.explore(f, on):
+        for v in p.events:
+            dv = dotted(v)
+            if dv and dv.startswith("Opcode."):
+                vals.add(dv.split(".")[1])
+            elif isinstance(v, ast.Name) and v.id == name and not any(
+                    isinstance(x, ast.Name) and x.id == name and isinstance(
+                        x.ctx, ast.Store) and not is_plain_const_store(x)
+                    for x in ast.walk(f)):
+                continue  # not bound on this path: nothing is emitted
+            else:
+                return None
     return sorted(vals) or None
+
+
+def is_plain_const_store(name_node):
+    from ..paths import is_simple_const
+    st = getattr(name_node, "_parent", None)
+    return isinstance(st, ast.Assign) and len(st.targets) == 1 and \
+        st.targets[0] is name_node and (is_simple_const(st.value) or
+                                        isinstance(st.value, ast.IfExp))
 
 
 # ------------------------------------------------------------ R01.2 / R01.3
@@ -714,8 +736,17 @@ def r7_constant(chk, repo, d):
     chk.ob("R01.7", E + "Constant.calculate", "both words from one value", ok,
            cal, "value = int(self.value)")
     asm = repo.func(E + "EBPF.assemble")
-    ok = bool(find("pack('<BBHI', i.opcode.value, i.dst | i.src << 4, "
-                   "i.off % 65536, i.imm % 4294967296)", asm))
+    hits = find("pack('<BBHI', $i.opcode.value, $i.dst | $i.src << 4, "
+                "$i.off % 65536, $i.imm % 4294967296)", asm)
+    ok = len(hits) == 1 and isinstance(hits[0][1]["i"], ast.Name)
+    if ok:
+        # $i runs over self.opcodes (comprehension or loop)
+        var = hits[0][1]["i"].id
+        its = [g.iter for g in ast.walk(asm) if isinstance(
+            g, ast.comprehension) and unparse(g.target) == var]
+        its += [g.iter for g in ast.walk(asm) if isinstance(g, ast.For)
+                and unparse(g.target) == var]
+        ok = len(its) == 1 and match("self.opcodes", its[0]) is not None
     chk.ob("R01.7", E + "EBPF.assemble", "instruction = <BBHI opcode, "
            "dst|src<<4, off mod 2^16, imm mod 2^32", ok, asm,
            "8 bytes little endian per the ISA")
